@@ -44,6 +44,7 @@ func main() {
 	verif := flag.String("verif", "", "verification directory (default: parent of the binary's directory)")
 	list := flag.Bool("list", false, "list registered properties")
 	dump := flag.Bool("dump", false, "print every obligation")
+	evdir := flag.String("evidence-dir", "", "where to write evidence (default <verif>/evidence)")
 	flag.Parse()
 
 	if *list {
@@ -121,7 +122,10 @@ func main() {
 		runGuarded(r, p.ID+":once", func() { p.Once(absRepo, r, *tier) })
 	}
 	cmdline := fmt.Sprintf("bin/goparcheck -property %s -tier %s -repo %s", p.ID, *tier, absRepo)
-	code := r.finish(*verif, p, *tier, seed, start, configs, kf, cmdline)
+	if *evdir == "" {
+		*evdir = filepath.Join(*verif, "evidence")
+	}
+	code := r.finish(*evdir, p, *tier, seed, start, configs, kf, cmdline)
 	if *dump {
 		for _, o := range r.obls {
 			fmt.Printf("%-10s %s @%s :: %s\n", o.Status, o.Key, o.Pos, o.Detail)
